@@ -283,7 +283,9 @@ func c20Pem(name string) string {
 	case "two":
 		return world.CA2.PEM
 	case "one+two":
-		return world.CA1.PEM + world.CA2.PEM // a bundle, as during a graceful rotation (cat old.pem new.pem)
+		// a bundle, as during a graceful rotation (cat old.pem new.pem) - and a big one: 70 KiB of annotations (which a PEM
+		// reader skips) stand between the two certificates, as in bundles exported with per-certificate comments
+		return world.CA1.PEM + strings.Repeat("# subject=CN=some other authority that is only described here, not included\n", 1000) + world.CA2.PEM
 	case "empty":
 		return "" // a file that exists and has no content yet (a secret that is populated later)
 	}
